@@ -467,7 +467,15 @@ class RealWorld(World):
         self.up_faults = []       # per-connect faults dicts for FaultySocket
 
     def _pair(self):
-        return self.tcp_pair() if self.tcp else self.sockpair(prime=False)
+        """(near, far): the harness keeps only a weak reference to the proxy-side socket, so that a
+        socket the proxy drops is closed by reference counting exactly as in production"""
+        import weakref
+        near, far = self.tcp_pair() if self.tcp else self.sockpair(prime=False)
+        self.socks.pop(near.fileno(), None)
+        self.partner.pop(near, None)
+        self.partner.pop(far, None)
+        self.near.append(weakref.ref(near))
+        return near, far
 
     def _connect(self, addr, source_address=None):
         out = self.plan.pop(0) if self.plan else 'ok'
@@ -481,7 +489,6 @@ class RealWorld(World):
         if out == 'unreach':
             raise OSError(errno.EHOSTUNREACH, 'No route to host')
         near, far = self._pair()
-        self.near.append(near)
         p = Peer(self, far, near.fileno())
         self.upstreams.append((addr, p))
         faults = self.up_faults.pop(0) if self.up_faults else None
@@ -490,7 +497,6 @@ class RealWorld(World):
 
     def client(self, faults=None, addr=('127.0.0.1', 40000)):
         near, far = self._pair()
-        self.near.append(near)
         p = Peer(self, far, near.fileno())
         self.queue(FaultySocket(near, faults) if faults else near, addr)
         return p
@@ -505,8 +511,24 @@ class RealWorld(World):
                 p.drain()
         return None
 
+    def leaked(self):
+        """descriptor numbers of proxy-side sockets that still exist and are still open"""
+        out = []
+        for r in self.near:
+            s = r()
+            if s is not None and s.fileno() >= 0:
+                out.append(s.fileno())
+        return out
+
     def close(self):
         self._S.new_socket_connection = self._orig_connect
+        for r in self.near:
+            s = r()
+            if s is not None:
+                try:
+                    s.close()
+                except OSError:
+                    pass
         super().close()
 
 
@@ -615,9 +637,10 @@ def gen_hist(rng, nrounds=8, adversarial=0.25, maxworks=4):
             behs = []
             for wid in everyone:
                 inst = w.ex.works.get(wid)
-                if pending[:1] == [wid]:
-                    inst = None      # a stale work with this id is replaced by the arriving one before the tasks run
                 own = inst.open_fds() if inst is not None else [wid]
+                if pending[:1] == [wid] and inst is not None:
+                    own = []         # a stale work with this id is replaced by the arriving one in mid-round:
+                    #                  one script serves two objects, so it closes nothing
                 live = [fd for fd in own if fd != wid]
                 mine = live + closed_seen[-3:]
                 b = {'t': rng.choices(['f', 't', 'x'], [80, 12, 8])[0], 'e': [], 'o': [], 's': [], 'sx': rng.random() < 0.15}
@@ -820,3 +843,406 @@ def gen_sel(rng, nops=30):
         return {'kind': 'sel', 'ops': ops}
     finally:
         w.close()
+
+
+# ---------------------------------------------------------------------------
+# layer 2: real HttpProtocolHandler works in every role, several connections
+# ---------------------------------------------------------------------------
+
+REAL_ARGS = ('--enable-web-server', '--enable-reverse-proxy')
+_RP = None
+
+
+def _rp_plugin():
+    global _RP
+    if _RP is None:
+        from proxy.http.server import ReverseProxyBasePlugin
+
+        class VerifReverseRoutes(ReverseProxyBasePlugin):
+            def routes(self):
+                return [(r'/r%d$' % i, [b'http://rev%d.example:%d/x' % (i, 9000 + i)]) for i in range(8)]
+
+        _RP = VerifReverseRoutes
+    return _RP
+
+
+def real_world(tcp=False):
+    from proxy.plugin import WebServerPlugin
+    return RealWorld(args=REAL_ARGS, tcp=tcp, plugins=[_rp_plugin(), WebServerPlugin])
+
+
+RESP = b'HTTP/1.1 200 OK\r\nContent-Length: 5\r\n\r\nhello'
+
+
+def good_script(role, i):
+    """the well-behaved script of connection number i in a role; upstream port identifies the connection"""
+    if role == 'fwd':
+        return [['cs', (b'GET http://up%d.example:%d/a?b=%d HTTP/1.1\r\nHost: up%d.example:%d\r\nUser-Agent: t\r\n\r\n'
+                        % (i, 8000 + i, i, i, 8000 + i)).hex()],
+                ['us', RESP.hex()], ['cc']]
+    if role == 'fwdka':
+        req = (b'GET http://up%d.example:%d/k HTTP/1.1\r\nHost: up%d.example:%d\r\n\r\n' % (i, 8000 + i, i, 8000 + i)).hex()
+        return [['cs', req], ['us', RESP.hex()], ['cs', req], ['us', RESP.hex()], ['cc']]
+    if role == 'post':
+        return [['cs', (b'POST http://up%d.example:%d/p HTTP/1.1\r\nHost: up%d.example:%d\r\nContent-Length: 4\r\n\r\nab'
+                        % (i, 8000 + i, i, 8000 + i)).hex()],
+                ['cs', b'cd'.hex()], ['us', RESP.hex()], ['cc']]
+    if role == 'tun':
+        return [['cs', (b'CONNECT up%d.example:%d HTTP/1.1\r\nHost: up%d.example:%d\r\n\r\n' % (i, 8000 + i, i, 8000 + i)).hex()],
+                ['cs', b'\x16\x03\x01client-hello'.hex()], ['us', b'\x16\x03\x03server-hello'.hex()],
+                ['cs', b'appdata-1'.hex()], ['us', b'appdata-2'.hex()], ['cc']]
+    if role == 'web404':
+        return [['cs', b'GET /nope HTTP/1.1\r\nHost: x\r\n\r\n'.hex()], ['cc']]
+    if role == 'webroute':
+        return [['cs', b'GET /http-route-example HTTP/1.1\r\nHost: x\r\n\r\n'.hex()], ['cc']]
+    if role == 'rev':
+        return [['cs', (b'GET /r%d HTTP/1.1\r\nHost: x\r\n\r\n' % i).hex()], ['us', RESP.hex()], ['cc']]
+    if role == 'revka':
+        req = (b'GET /r%d HTTP/1.1\r\nHost: x\r\n\r\n' % i).hex()
+        return [['cs', req], ['us', RESP.hex()], ['cs', req], ['us', RESP.hex()], ['cc']]
+    raise ValueError(role)
+
+
+ROLES = ['fwd', 'fwdka', 'post', 'tun', 'web404', 'webroute', 'rev', 'revka']
+CANARY_ROLES = ['fwd', 'post', 'tun', 'web404', 'webroute', 'rev']
+
+
+def _fault(name):
+    return {
+        'reset': ConnectionResetError(errno.ECONNRESET, 'reset'),
+        'timeout': TimeoutError(errno.ETIMEDOUT, 'timed out'),
+        'pipe': BrokenPipeError(errno.EPIPE, 'broken pipe'),
+        'unreach': OSError(errno.EHOSTUNREACH, 'unreachable'),
+        'io': OSError(errno.EIO, 'io error'),
+        'badf': OSError(errno.EBADF, 'bad fd'),
+        'again': BlockingIOError(errno.EAGAIN, 'again'),
+    }[name]
+
+
+def _faults(spec):
+    out = {}
+    for k, v in (spec or {}).items():
+        op, n = k.split(':')
+        out[(op, int(n))] = _fault(v)
+    return out
+
+
+class ConnRun:
+    def __init__(self, idx, spec):
+        self.idx = idx
+        self.spec = spec
+        self.client = None
+        self.pos = 0
+        self.ups = []
+        self.nconn = 0
+
+
+def drive(w, case, res, rounds_per_step=3, final_rounds=8):
+    """runs the scenario `case` in world `w` (see run_real)"""
+    conns = [ConnRun(i, c) for i, c in enumerate(case['conns'])]
+    byport = {}
+    orig_connect = w._connect
+
+    def connect(addr, source_address=None):
+        # outcome and faults are those of the connection that owns this upstream port
+        c = byport.get(addr[1])
+        if c is not None:
+            outs = c.spec.get('connect', ['ok'])
+            k = c.nconn
+            c.nconn = k + 1
+            w.plan = [outs[min(k, len(outs) - 1)]]
+            w.up_faults = [_faults(c.spec.get('uf'))] if c.spec.get('uf') and k == 0 else []
+        before = len(w.upstreams)
+        s = orig_connect(addr, source_address)
+        if c is not None and len(w.upstreams) > before:
+            c.ups.append(w.upstreams[-1][1])
+        return s
+    w._S.new_socket_connection = connect
+
+    def pump(n):
+        for _ in range(n):
+            e = w.round()
+            res['rounds'] += 1
+            if e is not None:
+                res['dead'] = e
+                return False
+            for c in conns:
+                if c.client is not None:
+                    c.client.drain()
+                for u in c.ups:
+                    u.drain()
+        return True
+
+    def step(c):
+        if c.client is None:
+            c.client = w.client(faults=_faults(c.spec.get('cf')) or None, addr=('127.0.0.1', 40000 + c.idx))
+            k = c.spec.get('i', c.idx)
+            byport[8000 + k] = c
+            byport[9000 + k] = c
+            return
+        if c.pos >= len(c.spec['steps']):
+            return
+        op = c.spec['steps'][c.pos]
+        c.pos += 1
+        up = c.ups[-1] if c.ups else None
+        if op[0] == 'cs':
+            c.client.send(bytes.fromhex(op[1]))
+        elif op[0] == 'us' and up is not None:
+            up.send(bytes.fromhex(op[1]))
+        elif op[0] == 'cc':
+            c.client.close()
+        elif op[0] == 'cr':
+            c.client.reset()
+        elif op[0] == 'cw':
+            c.client.shut_wr()
+        elif op[0] == 'uc' and up is not None:
+            up.close()
+        elif op[0] == 'ur' and up is not None:
+            up.reset()
+
+    alive = True
+    for i in case.get('sched', []):
+        step(conns[i])
+        alive = pump(rounds_per_step)
+        if not alive:
+            break
+    # run every connection's remaining steps, then end the ones still open
+    if alive:
+        for c in conns:
+            while alive and (c.client is None or c.pos < len(c.spec['steps'])):
+                step(c)
+                alive = pump(rounds_per_step)
+    if alive and case.get('final') == 'idle':
+        import proxy.http.handler as H
+        real_time = H.time.time
+        H.time.time = lambda: real_time() + 10000.0
+        try:
+            e = w.reap()
+            if e is not None:
+                res['dead'] = e
+                alive = False
+        finally:
+            H.time.time = real_time
+    if alive:
+        for c in conns:
+            if c.client is not None and c.client.sock.fileno() >= 0:
+                if case.get('final') == 'reset':
+                    c.client.reset()
+                elif case.get('final') != 'idle':
+                    c.client.close()
+        alive = pump(final_rounds)
+    for c in conns:
+        res['canary'][c.idx] = {
+            'client_rx': c.client.rx.hex() if c.client else '',
+            'client_eof': bool(c.client and c.client.eof),
+            'up_rx': [u.rx.hex() for u in c.ups],
+            'connects': c.nconn,
+        }
+    w._S.new_socket_connection = orig_connect
+    return conns
+
+
+def run_real(case, rounds_per_step=3, final_rounds=8):
+    """Runs a multi-connection scenario on the real executor + real handlers.
+    Returns a dict of implementation-level observations."""
+    import gc
+    w = real_world(tcp=bool(case.get('tcp')))
+    res = {'dead': None, 'canary': {}, 'leaked': [], 'end': None, 'rounds': 0}
+    try:
+        drive(w, case, res, rounds_per_step, final_rounds)
+        res['end'] = w.snapshot() if w.dead is None else None
+        gc.collect()
+        res['leaked'] = w.leaked()
+        return res
+    finally:
+        w.close()
+
+
+def run_repeat(case):
+    """the same connection history `n` times on one executor; descriptor count before / after"""
+    import gc
+    w = real_world(tcp=bool(case.get('tcp')))
+    res = {'dead': None, 'canary': {}, 'leaked': [], 'end': None, 'rounds': 0}
+    try:
+        one = {'conns': [case['conn']], 'sched': [], 'final': case.get('final')}
+        drive(w, one, res)        # warm-up: lazily created descriptors (loop, listener) exist from here on
+        for fd in list(w.socks):
+            w.close_fd(fd)
+        gc.collect()
+        before = count_fds()
+        for _ in range(case['n']):
+            if res['dead'] is not None:
+                break
+            drive(w, one, res)
+            for fd in list(w.socks):
+                w.close_fd(fd)
+            w.upstreams = []
+        gc.collect()
+        res['fds_before'] = before
+        res['fds_after'] = count_fds()
+        res['end'] = w.snapshot() if w.dead is None else None
+        res['leaked'] = w.leaked()
+        return res
+    finally:
+        w.close()
+
+
+# ---------------------------------------------------------------------------
+# scenario generation for layer 2
+# ---------------------------------------------------------------------------
+
+SPECIAL_REQUESTS = [
+    # non-UTF-8 request line (D11)
+    b'GET http://up%(i)d.example:%(p)d/\xff\xfe HTTP/1.1\r\nHost: up%(i)d.example:%(p)d\r\n\r\n',
+    b'G\xffT / HTTP/1.1\r\nHost: x\r\n\r\n',
+    b'GET /\xc3\x28 HTTP/1.1\r\nHost: x\r\nUser-Agent: \xff\xff\r\n\r\n',
+    # repeated Content-Length (D18), negative chunk size (D19)
+    b'POST http://up%(i)d.example:%(p)d/ HTTP/1.1\r\nHost: h\r\nContent-Length: 5\r\nContent-Length: 0\r\n\r\nx',
+    b'POST http://up%(i)d.example:%(p)d/ HTTP/1.1\r\nHost: h\r\nTransfer-Encoding: chunked\r\n\r\n-1\r\nabc\r\n0\r\n\r\n',
+    b'POST http://up%(i)d.example:%(p)d/ HTTP/1.1\r\nHost: h\r\nTransfer-Encoding: chunked\r\n\r\nzz\r\n',
+    b'POST http://up%(i)d.example:%(p)d/ HTTP/1.1\r\nHost: h\r\nContent-Length: abc\r\n\r\n',
+    b'POST http://up%(i)d.example:%(p)d/ HTTP/1.1\r\nHost: h\r\nContent-Length: -5\r\n\r\n',
+    # odd targets
+    b'CONNECT up%(i)d.example:notaport HTTP/1.1\r\n\r\n',
+    b'CONNECT up%(i)d.example HTTP/1.1\r\n\r\n',
+    b'CONNECT [::1 HTTP/1.1\r\n\r\n',
+    b'GET http://user@up%(i)d.example:%(p)d/ HTTP/1.1\r\n\r\n',
+    b'GET http://up%(i)d.example:99999999999/ HTTP/1.1\r\n\r\n',
+    b'GET ftp://up%(i)d.example/ HTTP/1.1\r\n\r\n',
+    b'GET\r\n\r\n', b'\r\n\r\n', b' \r\n', b'GET / HTTP/1.1\r\n: novalue\r\n\r\n', b'GET / HTTP/1.1\r\nNoColon\r\n\r\n',
+    b'GET / HTTP/9.9\r\n\r\n', b'PRI * HTTP/2.0\r\n\r\nSM\r\n\r\n', b'\x16\x03\x01\x02\x00\x01\x00\x01\xfc\x03\x03',
+    b'GET /r%(i)d HTTP/1.1\r\nHost: x\r\nUpgrade: websocket\r\nConnection: Upgrade\r\n\r\n',
+    b'GET /ws-route-example HTTP/1.1\r\nHost: x\r\nUpgrade: websocket\r\nConnection: Upgrade\r\nSec-WebSocket-Key: x\r\nSec-WebSocket-Version: 13\r\n\r\n\x81\xfe',
+    b'GET /http-route-example HTTP/1.1\r\nHost: x\r\n\r\nGET /nope HTTP/1.1\r\nHost: x\r\n\r\n',
+    b'GET /' + b'a' * 70000 + b' HTTP/1.1\r\n\r\n',
+]
+
+ABORTS = ['cc', 'cr', 'uc', 'ur', 'cw']
+CONNECT_OUTCOMES = ['refused', 'gaierror', 'timeout', 'unreach']
+FAULTS = ['reset', 'timeout', 'pipe', 'unreach', 'io', 'badf', 'again']
+
+
+def mutate(rng, b):
+    b = bytearray(b)
+    for _ in range(rng.choice([1, 1, 2, 4])):
+        k = rng.randrange(6)
+        pos = rng.randrange(len(b) + 1)
+        if k == 0 and b:
+            b[pos % len(b)] = rng.randrange(256)
+        elif k == 1 and b:
+            del b[pos % len(b)]
+        elif k == 2:
+            b[pos:pos] = bytes(rng.randrange(256) for _ in range(rng.choice([1, 2, 5])))
+        elif k == 3:
+            b = b[:pos]
+        elif k == 4 and b:
+            b[pos % len(b)] = rng.choice(b'\r\n :\x00\xff/')
+        elif k == 5:
+            b[pos:pos] = rng.choice([b'\r\n', b'\r\n\r\n', b'Content-Length: 3\r\n', b'Transfer-Encoding: chunked\r\n', b'Host: \xff\r\n'])
+    return bytes(b)
+
+
+def gen_adversary(rng, i):
+    """one adversarial connection: every kind of abuse the property quantifies over"""
+    role = rng.choice(ROLES)
+    good = good_script(role, i)
+    spec = {'role': role, 'i': i, 'adv': 1}
+    k = rng.randrange(8)
+    if k == 0:      # arbitrary bytes
+        steps = [['cs', bytes(rng.randrange(256) for _ in range(rng.choice([1, 3, 17, 64, 300]))).hex()]
+                 for _ in range(rng.choice([1, 2, 3]))]
+        if rng.random() < 0.5:
+            steps.append([rng.choice(['cc', 'cr', 'cw'])])
+        spec.update(kind='garbage', steps=steps)
+    elif k == 1:    # mutated requests
+        steps = [list(s) for s in good]
+        for s in steps:
+            if s[0] in ('cs', 'us') and rng.random() < 0.7:
+                s[1] = mutate(rng, bytes.fromhex(s[1])).hex()
+        spec.update(kind='mutated', steps=steps)
+    elif k in (2, 3):    # every prefix followed by every kind of abort
+        cut = rng.randrange(len(good) + 1)
+        steps = [list(s) for s in good[:cut]] + [[rng.choice(ABORTS)]]
+        if rng.random() < 0.3:
+            steps += [list(s) for s in good[cut:]]
+        spec.update(kind='abort', steps=steps)
+    elif k == 4:    # unreachable / refusing / unresolvable / timing out upstream
+        spec.update(kind='connect', steps=[list(s) for s in good],
+                    connect=[rng.choice(CONNECT_OUTCOMES)] + (['ok'] if rng.random() < 0.3 else []))
+    elif k == 5:    # socket-layer errors injected at a call of the client or upstream socket
+        spec.update(kind='fault', steps=[list(s) for s in good])
+        f = {'%s:%d' % (rng.choice(['recv', 'send']), rng.randrange(4)): rng.choice(FAULTS)}
+        spec['cf' if rng.random() < 0.5 else 'uf'] = f
+    elif k == 6:    # crafted requests
+        raw = rng.choice(SPECIAL_REQUESTS)
+        if b'%(' in raw:
+            raw = raw % {b'i': i, b'p': 8000 + i}
+        steps = [['cs', raw.hex()]]
+        if rng.random() < 0.5:
+            steps += [['us', RESP.hex()]]
+        if rng.random() < 0.5:
+            steps += [[rng.choice(ABORTS)]]
+        spec.update(kind='special', steps=steps)
+    else:           # split into tiny segments
+        steps = []
+        for s in good:
+            if s[0] == 'cs' and rng.random() < 0.8:
+                raw = bytes.fromhex(s[1])
+                cuts = sorted(rng.sample(range(1, len(raw)), min(len(raw) - 1, rng.choice([1, 2, 5]))))
+                prev = 0
+                for c in cuts + [len(raw)]:
+                    steps.append(['cs', raw[prev:c].hex()])
+                    prev = c
+            else:
+                steps.append(list(s))
+        if rng.random() < 0.4:
+            steps = steps[:rng.randrange(1, len(steps) + 1)] + [[rng.choice(ABORTS)]]
+        spec.update(kind='segments', steps=steps)
+    return spec
+
+
+def special_format(raw, i):
+    # bytes %-formatting with a dict needs bytes keys
+    return raw
+
+
+def gen_real(rng, ncanary=None, nadv=None):
+    ncanary = rng.choice([1, 1, 2, 3]) if ncanary is None else ncanary
+    nadv = rng.choice([1, 1, 1, 2]) if nadv is None else nadv
+    conns = []
+    n = ncanary + nadv
+    slots = list(range(n))
+    rng.shuffle(slots)
+    adv_slots = set(slots[:nadv])
+    for i in range(n):
+        if i in adv_slots:
+            conns.append(gen_adversary(rng, i))
+        else:
+            role = rng.choice(CANARY_ROLES)
+            conns.append({'role': role, 'i': i, 'canary': 1, 'steps': good_script(role, i)})
+    sched = []
+    for i, c in enumerate(conns):
+        sched += [i] * (len(c['steps']) + 1)
+    rng.shuffle(sched)
+    case = {'kind': 'real', 'conns': conns, 'sched': sched}
+    r = rng.random()
+    if r < 0.15:
+        case['final'] = 'reset'
+    elif r < 0.3:
+        case['final'] = 'idle'
+    if rng.random() < 0.25:
+        case['tcp'] = 1
+    return case
+
+
+_STANDALONE = {}
+
+
+def standalone_transcript(spec, tcp):
+    """what a well-behaved connection gets when it is the only one the worker serves"""
+    import json
+    key = json.dumps([spec, tcp], sort_keys=True)
+    if key not in _STANDALONE:
+        r = run_real({'conns': [spec], 'sched': [], 'tcp': tcp})
+        _STANDALONE[key] = (r['canary'][0], r['dead'])
+    return _STANDALONE[key]
